@@ -82,10 +82,12 @@ def count(array, axis=None, keepdims=False, mask_identity=False):
     if axis is None:
 
         def reduce(xs):
-            if len(xs) == 1:
-                return xs[0]
-            else:
-                return xs[0] + reduce(xs[1:])
+            if len(xs) == 0:
+                return 0
+            out = xs[0]
+            for x in xs[1:]:
+                out = out + x
+            return out
 
         return reduce(
             [ak.nplike.of(x).size(x) for x in ak._util.completely_flatten(layout)]
@@ -135,10 +137,12 @@ def count_nonzero(array, axis=None, keepdims=False, mask_identity=False):
     if axis is None:
 
         def reduce(xs):
-            if len(xs) == 1:
-                return xs[0]
-            else:
-                return xs[0] + reduce(xs[1:])
+            if len(xs) == 0:
+                return 0
+            out = xs[0]
+            for x in xs[1:]:
+                out = out + x
+            return out
 
         return reduce(
             [
@@ -332,10 +336,12 @@ def sum(array, axis=None, keepdims=False, mask_identity=False):
     if axis is None:
 
         def reduce(xs):
-            if len(xs) == 1:
-                return xs[0]
-            else:
-                return xs[0] + reduce(xs[1:])
+            if len(xs) == 0:
+                return 0
+            out = xs[0]
+            for x in xs[1:]:
+                out = out + x
+            return out
 
         return reduce(
             [ak.nplike.of(x).sum(x) for x in ak._util.completely_flatten(layout)]
@@ -381,10 +387,12 @@ def prod(array, axis=None, keepdims=False, mask_identity=False):
     if axis is None:
 
         def reduce(xs):
-            if len(xs) == 1:
-                return xs[0]
-            else:
-                return xs[0] * reduce(xs[1:])
+            if len(xs) == 0:
+                return 1
+            out = xs[0]
+            for x in xs[1:]:
+                out = out * x
+            return out
 
         return reduce(
             [ak.nplike.of(x).prod(x) for x in ak._util.completely_flatten(layout)]
@@ -432,10 +440,12 @@ def any(array, axis=None, keepdims=False, mask_identity=False):
     if axis is None:
 
         def reduce(xs):
-            if len(xs) == 1:
-                return xs[0]
-            else:
-                return xs[0] or reduce(xs[1:])
+            if len(xs) == 0:
+                return False
+            out = xs[0]
+            for x in xs[1:]:
+                out = out or x
+            return out
 
         return reduce(
             [ak.nplike.of(x).any(x) for x in ak._util.completely_flatten(layout)]
@@ -483,10 +493,12 @@ def all(array, axis=None, keepdims=False, mask_identity=False):
     if axis is None:
 
         def reduce(xs):
-            if len(xs) == 1:
-                return xs[0]
-            else:
-                return xs[0] and reduce(xs[1:])
+            if len(xs) == 0:
+                return True
+            out = xs[0]
+            for x in xs[1:]:
+                out = out and x
+            return out
 
         return reduce(
             [ak.nplike.of(x).all(x) for x in ak._util.completely_flatten(layout)]
@@ -541,11 +553,10 @@ def min(array, axis=None, keepdims=False, initial=None, mask_identity=True):
         def reduce(xs):
             if len(xs) == 0:
                 return None
-            elif len(xs) == 1:
-                return xs[0]
-            else:
-                x, y = xs[0], reduce(xs[1:])
-                return x if x < y else y
+            out = xs[-1]
+            for x in xs[-2::-1]:
+                out = x if x < out else out
+            return out
 
         tmp = ak._util.completely_flatten(layout)
         return reduce([ak.nplike.of(x).min(x) for x in tmp if len(x) > 0])
@@ -602,11 +613,10 @@ def max(array, axis=None, keepdims=False, initial=None, mask_identity=True):
         def reduce(xs):
             if len(xs) == 0:
                 return None
-            elif len(xs) == 1:
-                return xs[0]
-            else:
-                x, y = xs[0], reduce(xs[1:])
-                return x if x > y else y
+            out = xs[-1]
+            for x in xs[-2::-1]:
+                out = x if x > out else out
+            return out
 
         tmp = ak._util.completely_flatten(layout)
         return reduce([ak.nplike.of(x).max(x) for x in tmp if len(x) > 0])
